@@ -4,11 +4,11 @@ From MlsV Require Import Pending.
 Import ListNotations.
 Local Open Scope N_scope.
 
-Record centry := { ce_id : N; ce_base : list N; ce_builder : N; ce_reinit : bool }.
+Record centry := { ce_id : N; ce_base : list N; ce_builder : N; ce_reinit : bool; ce_path : bool }.
 Record world := { mems : list mstate; table : list centry }.
 
 Inductive wop :=
-| WBuild (m c : N) (detached reinit : bool)
+| WBuild (m c : N) (detached reinit path : bool)
 | WClear (m : N)
 | WApply (m : N)
 | WApplyDetached (m c : N)
@@ -31,11 +31,11 @@ Definition pflag (s : mstate) : N := match pend s with Some _ => 1 | None => 0 e
 Definition wstep (w : world) (o : wop) : list N * world :=
   let out (m : N) r s := [code r; epoch_of s; hid s; pflag s] in
   match o with
-  | WBuild m c d ri =>
+  | WBuild m c d ri pth =>
       let s := getm w m in
       let '(r, s') := step s (OBuild c d ri) in
       let w' := setm w m s' in
-      (out m r s', match r with ROk => {| mems := mems w'; table := {| ce_id := c; ce_base := hist s; ce_builder := m; ce_reinit := ri |} :: table w' |} | _ => w' end)
+      (out m r s', match r with ROk => {| mems := mems w'; table := {| ce_id := c; ce_base := hist s; ce_builder := m; ce_reinit := ri; ce_path := pth |} :: table w' |} | _ => w' end)
   | WClear m => let '(r, s') := step (getm w m) OClear in (out m r s', setm w m s')
   | WApply m => let '(r, s') := step (getm w m) OApplyPending in
                 (* the pending commit may be a re-init *)
@@ -52,7 +52,10 @@ Definition wstep (w : world) (o : wop) : list N * world :=
       match lookup w c with
       | Some e =>
           let s := getm w m in
-          let own_not_pending := (ce_builder e =? m) && negb (match pend s with Some (pc, _) => pc =? c | None => false end) in
+          (* its own commit, no longer pending (cleared): the author cannot decrypt its own update
+             path, so a commit WITH a path (or sent as PrivateMessage, which its author cannot decrypt: the
+             flag is set for those too) is refused; a public one without a path is an ordinary message *)
+          let own_not_pending := (ce_builder e =? m) && ce_path e && negb (match pend s with Some (pc, _) => pc =? c | None => false end) in
           if own_not_pending && (N.of_nat (length (ce_base e)) =? epoch_of s) then ([code RRejected; epoch_of s; hid s; pflag s], w)
           else let '(r, s') := step s (OReceive c (ce_base e) (ce_reinit e)) in (out m r s', setm w m s')
       | None => ([9; 0; 0; 0], w)
